@@ -1,4 +1,4 @@
-PENDING.update({k: "check not built yet at this commit (planned, see DESIGN.md section 5)" for k in ["C07","C10","C11","C18","C20"]})
+PENDING.update({k: "check not built yet at this commit (planned, see DESIGN.md section 5)" for k in ["C07","C10","C18","C20"]})
 check("C01", "exploration",
   "Seeded search: every run executes one (generated variant, operation, variables, resolver-outcome plan, release order) of servers generated at check time from /repo's templates, with each resolver/directive call parked and released by the scheduler, and compares data (key order kept) and the error multiset with an independent reference executor. Sampling, not proof; right level because the property is a refinement claim over an unbounded input space.",
   "Probe schemas instead of random schemas; reference executor + plan are the trusted model (parameters P1/P2 documented in DESIGN 3.5); gqlgen-authored messages matched by path only.",
@@ -31,3 +31,7 @@ check("C12", "exploration",
   "Streamed responses (SSE with keep-alive intervals down to 2us; multipart/mixed with delivery timeouts 1-50ms) are produced under seeded interleavings of payload production, timer ticks on the fake clock, slow-client writes (split at a seeded byte and parked) and disconnects; the raw bytes are parsed by a strict SSE parser / mime/multipart + strict JSON and compared, exactly-once and in order, with the payloads recorded by an innermost response interceptor; a Write entering while another is in progress is a violation; -race binary.",
   "net/http's server loop is not in the simulation (ServeHTTP is called directly on a simulated ResponseWriter); transport mutexes are replaced by durable channel mutexes in the scratch copy.",
   "deterministic simulation: fake-clock timing search with slow/disconnecting client faults + strict stream parsers", "5.12")
+check("C11", "exploration",
+  "Whole websocket sessions (real gorilla client and gqlgen transport over a pipe, fake clock) are driven by seeded sequences of client messages, server-side emissions, timer advances, write completions/failures and cancellations; a per-connection monitor over the server's frame log, the resolver events and the operation contexts checks the protocol rules of the statement, plus goroutine/close-callback accounting at the end; -race binary, transport mutexes made durable in the scratch copy.",
+  "Unique ids per connection; message texts and close codes are not asserted; net/http's own connection handling is outside the simulation.",
+  "deterministic simulation: session search over message/emission/timer interleavings with a protocol monitor", "5.11")
